@@ -27,6 +27,12 @@ CONV = {
     ("ANGLE", "deg"): (lambda r: r * 180.0 / math.pi, 0.5),
     ("SPEED", "kts"): (lambda v: v * 3600.0 / 1852.0, 0.05),
 }
+# inverse conversions and the library's rounding step, used to aim raw values at rounding ties
+INVERSE = {
+    "TEMPERATURE": {"c": (lambda c: c + 273.15, 0.01), "f": (lambda f_: (f_ - 32) * 5 / 9 + 273.15, 1.0)},
+    "ANGLE": {"deg": (lambda d_: d_ * math.pi / 180.0, 1.0)},
+    "SPEED": {"kts": (lambda k_: k_ * 1852.0 / 3600.0, 0.1)},
+}
 UNRECOGNISED = [("SPEED", "deg"), ("PRESSURE", "f"), ("TEMPERATURE", "bar"), ("ANGLE", "kts"), ("TEMPERATURE", "deg"), ("ANGLE", "c"),
                 ("SPEED", "psi"), ("PRESSURE", "kts"), ("POTENTIAL_DIFFERENCE", "deg"), ("LENGTH", "c"), ("ELECTRICAL_CURRENT", "bar"),
                 ("ANGULAR_VELOCITY", "deg"), ("TEMPERATURE", "kelvin"), ("TEMPERATURE", "r"), ("ANGLE", "grad"), ("SPEED", "kmh"), ("PRESSURE", "atm"),
@@ -98,8 +104,26 @@ def run_shard(spec, acc):
                     payloads.append(dbx.pack(d, raws))
         for _ in range(2 if quick else 30):
             payloads.append(dbx.pack(d, gen.base_raws(d, rng, dbx)))
+        # raw values whose exact conversion lies right next to a rounding tie of the library's rounding step
+        for f in qfields:
+            if f.ftype != "NUMBER" or f.pq not in INVERSE:
+                continue
+            lo, hi = f.raw_bounds()
+            for target, (inv, step) in INVERSE[f.pq].items():
+                for _ in range(3 if quick else 25):
+                    centre = rng.randint(lo, hi) if hi >= lo else 0
+                    x = CONV[(f.pq, target)][0](float(f.scaled(centre & f.mask)))
+                    tie = (math.floor(x / step) + 0.5) * step          # nearest tie above
+                    raw0 = round(inv(tie) / float(f.res))
+                    for dr in range(-3, 4):
+                        rr = raw0 + dr
+                        if lo <= rr <= hi and (rr & f.mask) != f.na_raw():
+                            raws = dict(base)
+                            raws[f.order] = rr & f.mask
+                            payloads.append(dbx.pack(d, raws))
+                            acc.count("near_tie_payloads")
         if quick:
-            payloads = payloads[:1] + rng.sample(payloads[1:], min(len(payloads) - 1, 12))
+            payloads = payloads[:1] + rng.sample(payloads[1:], min(len(payloads) - 1, 40))
         for payload in payloads:
             if dbx.select(d.pgn, payload) is not d:
                 continue
